@@ -22,7 +22,8 @@ CLAUSE = ("memory safety and termination shapes of the service decoder (20 ancho
           "amounts stay inside the operand width; the recursive call cycles are exactly the confirmed, guarded ones; cache "
           "page and network references are released on every path; a freed heap block is not used again; list nodes are "
           "initialised before they are linked; (RF-TERM) the cache page walk is entered only with a non-empty network and "
-          "leaves at its second wrap-around in both directions.")
+          "leaves at its second wrap-around in both directions; (RF-CORR) in convert_drcs every case of the mode switch "
+          "advances the output cursor by 60 and the input cursor by 20 bytes per pattern transfer unit it consumes.")
 NOT_DECIDED = ("termination of data-dependent loops in general, signed overflow of accumulating counters, unbounded growth "
                "other than through reference leaks, the content of what is decoded; subscripts of pointer parameters whose "
                "extent is a caller contract (listed per site in the evidence as trusted, with the contract).")
@@ -169,6 +170,7 @@ def run(ctx, run):
     _page_sizes(ctx, run)
     _no_self_deadlock(ctx, run)
     _countdowns(ctx, run)
+    _drcs_budget(ctx, run)
     for k, (flds, iv, why) in ARG_ASSUME.items():
         if k in ctx.arg_assume_used:
             run.assumptions.append("argument `%s` of %s() at its call in %s() is in %s: %s" % (k[2], k[1], k[0], list(iv), why))
@@ -950,3 +952,157 @@ def _countdowns(ctx, run):
             run.holds("RF-CMP", "RF-CMP:%s" % f.name, "%d countdown guard(s) inside loops: each is absorbing (<=) or re-arms the counter" % k,
                       "%s:%d" % (f.file, f.line))
     run.floor("countdown guards inside loops", n, 2)
+
+
+# --------------------------------------------------------------------------------------
+# RF-CORR: per-unit budget of convert_drcs
+
+def _const_incr(f, i, names):
+    """{name: amount} for the constant increments event i applies to tracked locals."""
+    out = {}
+    for lhs, var, op, rhs in flow.stores(f, i):
+        if lhs is None:
+            continue
+        l = f.exprs[ex.skip(f, lhs)]
+        if l["k"] != "ref" or l.get("name") not in names:
+            continue
+        if op == "++":
+            out[l["name"]] = out.get(l["name"], 0) + 1
+        elif op == "+=" and ex.const(f, rhs) is not None:
+            out[l["name"]] = out.get(l["name"], 0) + ex.const(f, rhs)
+        else:
+            out[l["name"]] = None          # not a constant step
+    return out
+
+
+def _drcs_budget(ctx, run):
+    """convert_drcs() walks the 48 pattern transfer units of a DRCS page with three cursors in
+    lock step: i (unit), p (input, 20 bytes per unit) and d (output, 60 bytes per unit, into
+    data.drcs.chars[48][60]).  For every case of the mode switch and every path through it the
+    net advance of d is 60 x and of p 20 x the number of units the case consumes (1 + its own
+    `i += k`); constant-trip inner loops count trip x body.  A case that advances further writes
+    past the character array (mode[] and invalid behind it, then past the page)."""
+    from .. import loops
+    P = ctx.prog
+    f = P.need("convert_drcs", "src/packet.c")
+    run.touch(f)
+    names = {"d", "p", "i"}
+    L = loops.natural_loops(f)
+    sw = [bid for bid, b in f.blocks.items() if b.term and b.term["kind"] == "SwitchStmt"]
+    if not sw:
+        raise AnalysisBroken("convert_drcs: mode switch not found")
+    sw = sw[0]
+    outer = None
+    for h, body in L.items():
+        if sw in body and (outer is None or len(body) < len(L[outer])):
+            outer = h
+    if outer is None:
+        raise AnalysisBroken("convert_drcs: unit loop not found")
+    obody = L[outer]
+    inner = {h: b for h, b in L.items() if h != outer and h in obody and b < obody}
+
+    def loop_delta(h):
+        body = inner[h]
+        t = f.blocks[h].term
+        if not t or "cond" not in t:
+            return None
+        c = f.exprs[ex.skip(f, t["cond"])]
+        if not (c["k"] == "bin" and c["op"] == "<"):
+            return None
+        n = ex.const(f, c["c"][1])
+        jv = f.exprs[ex.skip(f, c["c"][0])]
+        while jv["k"] == "cast":
+            jv = f.exprs[ex.skip(f, jv["c"][0])]
+        if n is None or jv["k"] != "ref":
+            return None
+        j0 = None
+        for pb in f.blocks[h].preds:
+            if pb in body:
+                continue
+            for i in flow.events(f, pb):
+                for lhs, var, op, rhs in flow.stores(f, i):
+                    if lhs is not None and op == "=" and f.exprs[ex.skip(f, lhs)].get("name") == jv["name"]:
+                        j0 = ex.const(f, rhs)
+        if j0 is None:
+            return None
+        per = {}
+        for b in body:
+            if b != h and len([s for s, _ in f.edges(b)]) > 1:
+                return None             # branching body: not a constant per-iteration step
+            for i in flow.events(f, b):
+                for k, v in _const_incr(f, i, names).items():
+                    if v is None:
+                        return None
+                    per[k] = per.get(k, 0) + v
+        trips = max(0, n - j0)
+        exit_ = [s for s, lab in f.edges(h) if s not in body]
+        return {k: v * trips for k, v in per.items()}, (exit_[0] if exit_ else None)
+
+    # the latch: the block of the outer loop that holds the loop's own i++ and jumps back to the head
+    results = {}
+    cases = [(s, lab) for s, lab in f.edges(sw)]
+    n_cases = 0
+    for start, lab in cases:
+        if start not in obody:
+            continue
+        n_cases += 1
+        paths = []
+        stack = [(start, {}, set())]
+        while stack:
+            b, acc, seen = stack.pop()
+            if b == outer or b not in obody:
+                paths.append(acc)
+                continue
+            if b in seen:
+                paths.append(None)
+                continue
+            if b in inner:
+                r = loop_delta(b)
+                if r is None:
+                    paths.append(None)
+                    continue
+                dl, nxt = r
+                acc2 = dict(acc)
+                for k, v in dl.items():
+                    acc2[k] = acc2.get(k, 0) + v
+                if nxt is None:
+                    paths.append(None)
+                    continue
+                stack.append((nxt, acc2, seen | {b}))
+                continue
+            acc2 = dict(acc)
+            bad = False
+            for i in flow.events(f, b):
+                for k, v in _const_incr(f, i, names).items():
+                    if v is None:
+                        bad = True
+                    else:
+                        acc2[k] = acc2.get(k, 0) + v
+            if bad:
+                paths.append(None)
+                continue
+            for s, _ in f.edges(b):
+                stack.append((s, acc2, seen | {b}))
+        results[lab] = paths
+    run.floor("cases of the DRCS mode switch", n_cases, 5)
+    for lab, paths in sorted(results.items(), key=lambda kv: str(kv[0])):
+        key = "RF-CORR:convert_drcs:unit-budget:case-%s" % (lab if not isinstance(lab, tuple) else "%s" % (lab[1],))
+        if any(p is None for p in paths):
+            run.violation("RF-CORR", key, "convert_drcs: a path through case %s advances a cursor by a non-constant amount or through "
+                          "a loop the budget analysis cannot count" % (lab,), "%s:%d" % (f.file, f.line))
+            continue
+        bad = []
+        for p in paths:
+            units = p.get("i", 0)           # includes the loop's own i++
+            if p.get("d", 0) != 60 * units or p.get("p", 0) != 20 * units:
+                bad.append(p)
+        if bad:
+            p = bad[0]
+            run.violation("RF-CORR", key, "convert_drcs: case %s consumes %d unit(s) but advances the output cursor by %d bytes "
+                          "(60 per unit) and the input cursor by %d (20 per unit): the conversion leaves the 60 byte character / "
+                          "20 byte unit and, over the 48 units of a page, the arrays themselves (writes over mode[], invalid and "
+                          "past the page)" % (lab, p.get("i", 0), p.get("d", 0), p.get("p", 0)), "%s:%d" % (f.file, f.line),
+                          witness={"case": str(lab), "advance": p})
+        else:
+            run.holds("RF-CORR", key, "every path: d advances 60 and p 20 per unit consumed (%s)" % sorted(
+                {(p.get("i", 0), p.get("d", 0), p.get("p", 0)) for p in paths}), "%s:%d" % (f.file, f.line))
